@@ -26,7 +26,7 @@ def record(tw, rng, n_chains, stats):
         else:
             v = gen.logu(rng, 1e-12, 1e6)
         k = rng.choice([2.0, 0.5, 3.7, 1e-3, 1e3, gen.logu(rng, 1e-3, 1e3)])
-        u0 = rng.choice(UNITS)
+        u0 = gen.tstr(rng, rng.choice(UNITS))
         if rng.random() < 0.08:
             # the Permeance itself is stated in a unit the library does not know (mis-spelt, another convention): converting it must raise
             u0 = rng.choice(["kg/(m2 h kPa)", "Barrer", "gpu", "si", "furlong/fortnight"])
@@ -35,7 +35,7 @@ def record(tw, rng, n_chains, stats):
         tr = tw.new()
         tr.append({"ev": "New", "M": M, "k": F(k), "v_in": F(v), "a": pstate(a), "b": pstate(b)})
         for _ in range(rng.randrange(2, 5)):
-            to = rng.choice(UNITS + UNITS + ["furlong/fortnight"])
+            to = gen.tstr(rng, rng.choice(UNITS + UNITS + ["furlong/fortnight"]))       # also as a string made at run time
             has = rng.random() < 0.8
             try:
                 a2 = a.convert(to, comp if has else None)
@@ -52,6 +52,24 @@ def record(tw, rng, n_chains, stats):
         stats["chains"] = stats.get("chains", 0) + 1
         if v > 0:
             stats["nontrivial"].add((v, k, M, u0))
+    # a Permeance that was itself RETURNED by a conversion with one component is converted again with another component:
+    # each conversion uses the component it is given
+    for _ in range(max(8, n_chains // 20)):
+        ca, cb = rng.sample(comps, 2) if rng.random() < 0.6 else (gen.synthetic_component(rng, "SA", mass=gen.logu(rng, 1.0, 1000.0)),
+                                                                  gen.synthetic_component(rng, "SB", mass=gen.logu(rng, 1.0, 1000.0)))
+        v = gen.logu(rng, 1e-12, 1e6)
+        u_from = gen.tstr(rng, rng.choice(["SI", "GPU"]))
+        u_to = gen.tstr(rng, rng.choice(["SI", "GPU"]))
+        try:
+            mid = pv.Permeance(value=v, units=u_from).convert(UNITS[0], ca)
+            if rng.random() < 0.3:
+                mid.value = mid.value * 1.0          # (an assignment to the public attribute of the returned object)
+            end = mid.convert(u_to, cb)
+            tw.add([{"ev": "Cross", "v": F(v), "from": u_from, "to": u_to, "MA": float(ca.molecular_weight), "MB": float(cb.molecular_weight),
+                     "mid": pstate(mid), "end": pstate(end), "raised": False}])
+        except Exception as e:  # noqa: BLE001
+            tw.add([{"ev": "Cross", "v": F(v), "from": u_from, "to": u_to, "MA": float(ca.molecular_weight), "MB": float(cb.molecular_weight),
+                     "mid": {"value": 0.0, "units": ""}, "end": {"value": 0.0, "units": ""}, "raised": True}])
     # the defining factors through the value 1
     for comp in comps + [gen.synthetic_component(rng, "S", mass=gen.logu(rng, 1.0, 1000.0)) for _ in range(8)]:
         one_kg = pv.Permeance(value=1.0, units=UNITS[0]).convert("SI", comp)
